@@ -659,9 +659,23 @@ func RunLayer2(r *core.Run) {
 		chunks = keep
 		r.Cap("layer 2 restricted to targets matching C06L2_ONLY=" + only)
 	}
-	sort.SliceStable(chunks, func(i, j int) bool {
-		return targets[cases[chunks[i].a].tgt].heavy && !targets[cases[chunks[j].a].tgt].heavy
-	})
+	// scheduling only: chunks that replace a modulus of a heavy target first (that is where a call can fall into an
+	// unbounded computation, which then has to wait out the 120 s watchdog), then the other heavy chunks, then the rest
+	prio := func(c chunk) int {
+		t := targets[cases[c.a].tgt]
+		if !t.heavy {
+			return 0
+		}
+		for k := c.a; k <= c.b; k++ {
+			for _, rp := range cases[k].repl {
+				if t.comp(rp[0]).kind == kModulus {
+					return 2
+				}
+			}
+		}
+		return 1
+	}
+	sort.SliceStable(chunks, func(i, j int) bool { return prio(chunks[i]) > prio(chunks[j]) })
 	tStart := time.Now()
 	// slow pool: cases that exceeded the soft limit are re-run alone under the hard watchdog
 	var slowDone sync.WaitGroup
